@@ -264,6 +264,8 @@ pub enum Value {
     Bool(bool),
     Null,
     Arr(Vec<Value>),
+    /// process command builder: program and the number of arguments are what it prints
+    Cmd { program: String, args: usize },
 }
 
 impl Value {
@@ -274,6 +276,7 @@ impl Value {
             Value::Bool(..) => "boolean",
             Value::Null => "null",
             Value::Arr(..) => "array",
+            Value::Cmd { .. } => "process_command",
         }
     }
 
@@ -293,6 +296,9 @@ impl Value {
                 let _ = write!(out, "{b}");
             }
             Value::Null => out.push_str("null"),
+            Value::Cmd { program, args } => {
+                let _ = write!(out, "<process_command program=\"{program}\" args={args}>");
+            }
             Value::Arr(items) => {
                 out.push('[');
                 for (i, it) in items.iter().enumerate() {
@@ -783,6 +789,10 @@ impl<'p> Interp<'p> {
                             self.feat.strings_built += 1;
                             Ok(Value::Str(v.display()))
                         }
+                        "command" => match v {
+                            Value::Str(program) => Ok(Value::Cmd { program, args: 0 }),
+                            _ => Err(Ending::TypeMismatch),
+                        },
                         _ => stuck("builtin not modelled"),
                     };
                 }
@@ -892,6 +902,9 @@ impl<'p> Interp<'p> {
         if matches!(name, "push" | "pop" | "reverse") {
             return self.mut_method(recv, name, args, scope);
         }
+        if matches!(name, "arg" | "cwd" | "env" | "stdin_text" | "stdin_null" | "stdout_capture" | "stderr_capture" | "timeout_ms") {
+            return self.cmd_method(recv, name, args, scope);
+        }
         let rv = self.expr(recv, scope)?;
         let arity = |n: usize| -> R<()> {
             if args.len() == n { Ok(()) } else { stuck("method arity") }
@@ -982,8 +995,69 @@ impl<'p> Interp<'p> {
                 _ => Err(Ending::TypeMismatch),
             },
             Value::Null => Err(Ending::TypeMismatch),
-            Value::Bool(_) => stuck("method on a boolean"),
+            Value::Bool(_) => Err(Ending::TypeMismatch),
+            Value::Cmd { .. } => stuck("non-builder method on a process command"),
         }
+    }
+
+    /// Builder methods of a process command mutate the command in place (variable or element).
+    fn cmd_method(
+        &mut self,
+        recv: &'p Expr,
+        name: &str,
+        args: &'p [Expr],
+        scope: &Rc<Scope<'p>>,
+    ) -> R<Value> {
+        let want = match name {
+            "env" => 2,
+            "arg" | "cwd" | "stdin_text" | "timeout_ms" => 1,
+            _ => 0,
+        };
+        if args.len() != want {
+            return Err(Ending::TypeMismatch);
+        }
+        let mut vals = Vec::new();
+        for a in args {
+            vals.push(self.expr(a, scope)?);
+        }
+        match name {
+            "cwd" if !matches!(vals[0], Value::Str(_)) => return Err(Ending::TypeMismatch),
+            "env" if !matches!(vals[0], Value::Str(_)) => return Err(Ending::TypeMismatch),
+            "timeout_ms" => return stuck("timeout not modelled"),
+            _ => {}
+        }
+        let Ok((root_name, root_decl, idx_exprs)) = flatten(recv) else {
+            return Err(Ending::TypeMismatch);
+        };
+        let mut idxs = Vec::new();
+        for ie in idx_exprs {
+            let iv = self.expr(ie, scope)?;
+            idxs.push(index_for_write(&iv)?);
+        }
+        let is_arg = name == "arg";
+        self.with_var_mut(scope, root_decl, root_name, move |slot| {
+            let mut cur = slot;
+            for idx in &idxs {
+                match cur {
+                    Value::Arr(items) => {
+                        if *idx >= items.len() {
+                            return Err(Ending::IndexOutOfBounds);
+                        }
+                        cur = &mut items[*idx];
+                    }
+                    _ => return Err(Ending::InvalidIndex),
+                }
+            }
+            match cur {
+                Value::Cmd { args, .. } => {
+                    if is_arg {
+                        *args += 1;
+                    }
+                    Ok(Value::Null)
+                }
+                _ => Err(Ending::TypeMismatch),
+            }
+        })
     }
 
     fn mut_method(
